@@ -173,8 +173,11 @@ func runPlan(c *pbt.Case, p Plan) {
 				name := dbName(d)
 				var res cluster.ReadResult
 				var err error
+				var monSig, monMsg string
 				for try := 0; try < 200; try++ {
-					if res, err = n.Read(name); err != pager.ErrBusy {
+					// the C04/C09 monitors read raw files: evaluate them under the read lock,
+					// when no apply can be in flight
+					if res, err = n.ReadUnder(name, func() { monSig, monMsg = n.Monitors(name) }); err != pager.ErrBusy {
 						break
 					}
 					time.Sleep(100 * time.Microsecond)
@@ -213,13 +216,8 @@ func runPlan(c *pbt.Case, p Plan) {
 						c.Failf("C01/shm-header", "step %d (%s): replica %s %s: wal-index header says mxFrame=%d nPage=%d, image has %d pages", step, what, n.Name, name, res.SHMMxFrame, res.SHMPageN, img.N())
 					}
 				}
-				if sig, msg := n.Monitors(name); sig != "" {
-					// the monitors read raw files; retry once in case an apply was in flight
-					time.Sleep(2 * time.Millisecond)
-					if sig2, msg2 := n.Monitors(name); sig2 != "" {
-						c.Failf(sig2, "step %d (%s): node %s: %s (first: %s)", step, what, n.Name, msg2, msg)
-					}
-					_ = sig
+				if monSig != "" {
+					c.Failf(monSig, "step %d (%s): node %s: %s", step, what, n.Name, monMsg)
 				}
 				_ = i
 			}
